@@ -66,6 +66,9 @@ type c10in struct {
 	Mode       string `json:"mode,omitempty"`   // number | tlt
 	MPD        string `json:"mpd,omitempty"`    // MPD name when it is not the asset's default one
 	Server     string `json:"server,omitempty"` // "" | repdata-write | repdata-restart: how the serving instance was started
+	// Unencryptable: the harness\'s own statement that livesim2 does not encrypt this track\'s codec
+	// (sample entry other than avc1/avc3/mp4a): MPD, init segment and media must then agree on "clear"
+	Unencryptable bool `json:"unencryptable,omitempty"`
 	// b64 / ids
 	Fn    string `json:"fn,omitempty"`  // pack | unpack | from | fromtrunc | kid2key | key2kid | kidfromstring
 	Str   string `json:"str,omitempty"` // input string (latin-1 code points = bytes)
@@ -357,8 +360,27 @@ func newEnv(scratch string, seed int64) (*env, error) {
 		e.assets[cp.Path] = &cp
 		e.segDur[cp.Path] = e.segDur["testpic_2s"]
 	}
+	// testpic_2s with the codecs attribute on the AdaptationSet instead of the Representation (a layout
+	// DASH allows: common attributes are inherited); a mixed asset: HEVC video that livesim2 cannot
+	// encrypt (from bbb_hevc_ac3_8s) with the AAC audio of testpic_2s
+	if err := buildASCodecs(filepath.Join(lib.TestVodRoot, "testpic_2s"), filepath.Join(scratch, "vod", "testpic_2s_ascodecs")); err != nil {
+		e.notes = append(e.notes, "ascodecs scratch asset: "+err.Error())
+	} else if src := e.assets["testpic_2s"]; src != nil {
+		cp := *src
+		cp.Path = "testpic_2s_ascodecs"
+		e.assets[cp.Path] = &cp
+		e.segDur[cp.Path] = e.segDur["testpic_2s"]
+	}
+	if ma, err := buildMixed(filepath.Join(scratch, "vod", "mixed_hevc_aac")); err != nil {
+		e.notes = append(e.notes, "mixed scratch asset: "+err.Error())
+	} else {
+		e.assets[ma.Path] = ma
+		e.segDur[ma.Path] = 2000
+	}
 	// pre-encrypted copy of testpic_2s
 	if err := buildPreEncrypted(filepath.Join(lib.TestVodRoot, "testpic_2s"), filepath.Join(scratch, "vod", "testpic_2s_pre")); err != nil {
+		e.preErr = err.Error()
+	} else if err := buildASCodecs(filepath.Join(scratch, "vod", "testpic_2s_pre"), filepath.Join(scratch, "vod", "testpic_2s_pre_ascodecs")); err != nil {
 		e.preErr = err.Error()
 	} else if pre, err := lib.NewLivesim(filepath.Join(scratch, "vod"), func(cfg *app.ServerConfig) { cfg.DrmCfg = dcfg }); err != nil {
 		e.preErr = err.Error()
@@ -367,6 +389,121 @@ func newEnv(scratch string, seed int64) (*env, error) {
 		e.servers["scratch"] = pre
 	}
 	return e, nil
+}
+
+// buildASCodecs copies an asset (Manifest.mpd, V300, A48); in the MPD the codecs attribute moves from
+// every Representation to its AdaptationSet.
+func buildASCodecs(src, dst string) error {
+	raw, err := os.ReadFile(filepath.Join(src, "Manifest.mpd"))
+	if err != nil {
+		return err
+	}
+	mpd := string(raw)
+	reAS := regexp.MustCompile(`(?s)<AdaptationSet ([^>]*)>(.*?)</AdaptationSet>`)
+	reCodecs := regexp.MustCompile(` codecs="([^"]*)"`)
+	mpd = reAS.ReplaceAllStringFunc(mpd, func(as string) string {
+		mm := reAS.FindStringSubmatch(as)
+		cm := reCodecs.FindStringSubmatch(mm[2])
+		if cm == nil {
+			return as
+		}
+		body := reCodecs.ReplaceAllString(mm[2], "")
+		return `<AdaptationSet codecs="` + cm[1] + `" ` + mm[1] + `>` + body + `</AdaptationSet>`
+	})
+	if !strings.Contains(mpd, `<AdaptationSet codecs=`) {
+		return fmt.Errorf("no codecs attribute moved")
+	}
+	if err := os.MkdirAll(dst, 0o755); err != nil {
+		return err
+	}
+	if err := os.WriteFile(filepath.Join(dst, "Manifest.mpd"), []byte(mpd), 0o644); err != nil {
+		return err
+	}
+	for _, rep := range []string{"V300", "A48"} {
+		if err := copyDir(filepath.Join(src, rep), filepath.Join(dst, rep)); err != nil {
+			return err
+		}
+	}
+	return nil
+}
+
+func copyDir(src, dst string) error {
+	if err := os.MkdirAll(dst, 0o755); err != nil {
+		return err
+	}
+	ents, err := os.ReadDir(src)
+	if err != nil {
+		return err
+	}
+	for _, en := range ents {
+		if en.IsDir() {
+			continue
+		}
+		b, err := os.ReadFile(filepath.Join(src, en.Name()))
+		if err != nil {
+			return err
+		}
+		if err := os.WriteFile(filepath.Join(dst, en.Name()), b, 0o644); err != nil {
+			return err
+		}
+	}
+	return nil
+}
+
+// buildMixed writes an asset with the HEVC video of bbb_hevc_ac3_8s (representation H1) and the AAC
+// audio of testpic_2s (A48) and returns the harness's own description of it.
+func buildMixed(dst string) (*lib.TLAsset, error) {
+	bbb := filepath.Join(lib.TestVodRoot, "bbb_hevc_ac3_8s")
+	if err := os.MkdirAll(filepath.Join(dst, "H1"), 0o755); err != nil {
+		return nil, err
+	}
+	cp := func(from, to string) error {
+		b, err := os.ReadFile(from)
+		if err != nil {
+			return err
+		}
+		return os.WriteFile(to, b, 0o644)
+	}
+	if err := cp(filepath.Join(bbb, "video_init.mp4"), filepath.Join(dst, "H1", "init.mp4")); err != nil {
+		return nil, err
+	}
+	for n := 1; n <= 4; n++ {
+		if err := cp(filepath.Join(bbb, fmt.Sprintf("video_%d.m4s", n)), filepath.Join(dst, "H1", fmt.Sprintf("%d.m4s", n))); err != nil {
+			return nil, err
+		}
+	}
+	if err := copyDir(filepath.Join(lib.TestVodRoot, "testpic_2s", "A48"), filepath.Join(dst, "A48")); err != nil {
+		return nil, err
+	}
+	mpd := `<?xml version="1.0"?>
+<MPD xmlns="urn:mpeg:dash:schema:mpd:2011" minBufferTime="PT1.5S" type="static" mediaPresentationDuration="PT8S" maxSegmentDuration="PT2S" profiles="urn:mpeg:dash:profile:isoff-live:2011">
+ <Period id="p0" start="PT0S">
+  <AdaptationSet contentType="video" mimeType="video/mp4" segmentAlignment="true" startWithSAP="1">
+   <SegmentTemplate media="$RepresentationID$/$Number$.m4s" initialization="$RepresentationID$/init.mp4" timescale="12288" startNumber="1" duration="24576"/>
+   <Representation id="H1" codecs="hev1.1.6.L63.90" width="640" height="360" frameRate="24" sar="1:1" bandwidth="741142"/>
+  </AdaptationSet>
+  <AdaptationSet contentType="audio" mimeType="audio/mp4" lang="en" segmentAlignment="true" startWithSAP="1">
+   <SegmentTemplate startNumber="1" initialization="$RepresentationID$/init.mp4" duration="2" media="$RepresentationID$/$Number$.m4s"/>
+   <Representation id="A48" codecs="mp4a.40.2" bandwidth="48000" audioSamplingRate="48000"/>
+  </AdaptationSet>
+ </Period>
+</MPD>
+`
+	if err := os.WriteFile(filepath.Join(dst, "Manifest.mpd"), []byte(mpd), 0o644); err != nil {
+		return nil, err
+	}
+	a := &lib.TLAsset{Path: filepath.Base(dst), MPD: "Manifest.mpd"}
+	for _, rs := range []struct{ id, kind string }{{"H1", "video"}, {"A48", "audio"}} {
+		vr, trex, err := lib.LoadVodRep(filepath.Join(dst, rs.id), rs.id)
+		if err != nil {
+			return nil, err
+		}
+		a.Reps = append(a.Reps, &lib.TLRep{VodRep: vr, Trex: trex, Kind: rs.kind, Ext: ".m4s"})
+	}
+	ref := a.Ref()
+	a.RefTS, a.RefDur = ref.Timescale, ref.Duration()
+	a.LoopMS = 1000 * ref.Duration() / ref.Timescale
+	return a, nil
 }
 
 // buildTfdt64 copies an asset; every stored media segment gets a version-1 (64-bit) tfdt box.
@@ -1162,6 +1299,18 @@ func oracleSeg(c *lib.Ctx, id string, in c10in, o segObs) {
 		fail("status", fmt.Sprintf("MPD %d, init %d, protected segment %d, clear segment %d", o.MPDStatus, o.InitStatus, o.EncStatus, o.ClearStatus))
 		return
 	}
+	if in.Unencryptable {
+		// livesim2 does not encrypt this codec: MPD, init segment and media must agree on that
+		switch {
+		case o.MPDKid == "" && o.InitKid == "" && !o.Encrypted:
+			c.Count("unencryptable-track:consistently-clear")
+		case o.MPDKid != "" && o.InitKid == "" && !o.Encrypted:
+			fail("mpd-announces-protection-for-clear-track", fmt.Sprintf("the MPD announces ContentProtection (default_KID %s) for the %s adaptation set, but its init segment has no protection box and its segments are served in the clear", o.MPDKid, in.CType))
+		default:
+			fail("unencryptable-track-inconsistent", fmt.Sprintf("MPD default_KID %q, init tenc %q, ciphertext %v", o.MPDKid, o.InitKid, o.Encrypted))
+		}
+		return
+	}
 	if o.MPDKid == "" {
 		fail("mpd-no-default-kid", "the MPD announces no default_KID for the "+in.CType+" adaptation set")
 		return
@@ -1359,6 +1508,9 @@ func (e *env) term(i int, in c10in, ao anyObs) string {
 		o := *ao.load
 		return fmt.Sprintf("CLoad %d %s %s %s", i, lib.Cbool(o.Encryptable), lib.Cbool(o.Stored), lib.Cbool(o.HasEnc || o.PreEnc))
 	case ao.seg != nil:
+		if in.Unencryptable {
+			return "" // outside the model (which describes tracks that are encrypted)
+		}
 		return e.segTerm(i, in, *ao.seg)
 	case ao.pre != nil:
 		o := *ao.pre
@@ -1515,6 +1667,38 @@ func (e *env) generate(rng *rand.Rand, c *lib.Ctx) []c10in {
 			}
 		}
 	}
+	// ---- asset layouts: codecs on the AdaptationSet; a mixed asset whose reference video cannot be encrypted
+	if e.servers["scratch"] != nil {
+		type lrep struct {
+			id, ct string
+			unenc  bool
+		}
+		for _, x := range []struct {
+			asset string
+			reps  []lrep
+		}{
+			{"testpic_2s_ascodecs", []lrep{{"V300", "video", false}, {"A48", "audio", false}}},
+			{"mixed_hevc_aac", []lrep{{"H1", "video", true}, {"A48", "audio", false}}},
+		} {
+			a := e.assets[x.asset]
+			if a == nil {
+				continue
+			}
+			ref := a.Ref()
+			for _, d := range drms {
+				for _, rp := range x.reps {
+					for _, ch := range []bool{false, true} {
+						in := c10in{Kind: "seg", Asset: x.asset, Rep: rp.id, CType: rp.ct, DRM: d, Seg: 20 + rng.Int63n(400000), Chunked: ch, Mode: "number", Server: "scratch", Unencryptable: rp.unenc}
+						in.NowMS = ref.LoopE(in.Seg)*1000/ref.Timescale + 3000 + rng.Int63n(20000)
+						if ch {
+							in.Ato = "1"
+						}
+						add("seg-layout:"+x.asset, in)
+					}
+				}
+			}
+		}
+	}
 	// ---- chunked DRM requests that arrive while the segment is in progress: the chunks still to
 	// come are written after sleeping (the third branch of the pacing loop); every chunk must
 	// be encrypted. Real time, run concurrently.
@@ -1545,12 +1729,14 @@ func (e *env) generate(rng *rand.Rand, c *lib.Ctx) []c10in {
 		for _, d := range drms {
 			for _, rep := range []string{"V300", "A48"} {
 				for _, ch := range []bool{false, true} {
-					in := c10in{Kind: "pre", Asset: "testpic_2s_pre", Rep: rep, DRM: d, Seg: 4 + rng.Int63n(1000), Chunked: ch && rep == "V300"}
-					in.NowMS = in.Seg*2000 + 6000 + rng.Int63n(20000)
-					if in.Chunked {
-						in.Ato = "1"
+					for _, pa := range []string{"testpic_2s_pre", "testpic_2s_pre_ascodecs"} {
+						in := c10in{Kind: "pre", Asset: pa, Rep: rep, DRM: d, Seg: 4 + rng.Int63n(1000), Chunked: ch && rep == "V300"}
+						in.NowMS = in.Seg*2000 + 6000 + rng.Int63n(20000)
+						if in.Chunked {
+							in.Ato = "1"
+						}
+						add("pre-encrypted:"+d, in)
 					}
-					add("pre-encrypted:"+d, in)
 				}
 			}
 		}
@@ -1817,7 +2003,9 @@ func runC10(c *lib.Ctx) error {
 	for s := 0; s*shard < len(ins); s++ {
 		var terms []string
 		for i := s * shard; i < (s+1)*shard && i < len(ins); i++ {
-			terms = append(terms, e.term(i, ins[i], obs[i]))
+			if tm := e.term(i, ins[i], obs[i]); tm != "" {
+				terms = append(terms, tm)
+			}
 		}
 		c.WriteCases(fmt.Sprintf("cases_C10_%d.v", s),
 			lib.CasesFile("From Verif Require Import GoSem Keys CorrC10.", "c10case", "", terms, "model_view"))
